@@ -625,12 +625,34 @@ def impl_run(case):
             fh.write(case["ini"])
         v1 = parse_view(path, case["environ"])
         v2 = parse_view(path, case["environ"])
+        # the daemon parses again in the SAME process (reloadconfig): a parse must leave nothing behind for the next one.
+        # Same environment context: parse the file, then the file without its [env] section; that second result must be what
+        # a parse of the second file alone gives, and os.environ must be what it was
+        path2 = os.path.join(d, "circus2.ini")
+        with open(path2, "w") as fh:
+            fh.write(_without_env_section(case["ini"]))
+        alone = parse_view(path2, case["environ"])
+
+        def seq():
+            from circus.config import get_config
+            before = dict(os.environ)
+            try:
+                get_config(path)
+            except Exception:
+                pass
+            touched = dict(os.environ) != before
+            try:
+                after = canon_config(get_config(path2))
+            except Exception as e:
+                after = {"error": type(e).__name__}
+            return after, touched
+        after_first, env_touched = _with_environ(case["environ"], seq)
         v3 = parse_in_other_interpreter(path, case["environ"])
         try:
             read = read_sections(case["ini"])
         except Exception as e:
             read = {"error": type(e).__name__}
-        return {"view": v1, "same_inproc": v1 == v2,
+        return {"view": v1, "same_inproc": v1 == v2, "seq_same": after_first == alone, "env_touched": env_touched,
                 "same_other_interpreter": json.loads(json.dumps(v1)) == v3, "sections_read": read}
     finally:
         shutil.rmtree(d, ignore_errors=True)
@@ -881,12 +903,31 @@ def _expected(case, wname, opt, text):
     return None, has_ref
 
 
+def _without_env_section(ini):
+    """the same file with the lines of its [env] section dropped (the header stays: an empty section is skipped)"""
+    out, inside = [], False
+    for line in ini.split("\n"):
+        st = line.strip()
+        if st.startswith("[") and st.endswith("]"):
+            inside = (st == "[env]")
+            out.append(line)
+        elif not inside:
+            out.append(line)
+    return "\n".join(out)
+
+
 def oracle(case, obs):
     if "prim" in case:
         return []               # primitives: correspondence only
     if "view" not in obs:
         return [{"sig": "harness-exception", "msg": str(obs.get("harness_exception"))}]
     fails = []
+    if obs.get("seq_same") is False or obs.get("env_touched"):
+        fails.append({"sig": "parse-leaves-state-behind",
+                      "msg": "a second parse in the same process (the file without its [env] section) %s; os.environ %s by the first parse"
+                             % ("gives what a parse of that file alone gives" if obs.get("seq_same") else
+                                "does NOT give what a parse of that file alone gives",
+                                "was CHANGED" if obs.get("env_touched") else "was left alone")})
     if not obs["same_inproc"] or not obs["same_other_interpreter"]:
         fails.append({"sig": "nondeterministic", "msg": "parsing the same file again gave a different configuration"})
     if obs["sections_read"] != [[n, [list(kv) for kv in o]] for n, o in case["sections"]]:
